@@ -103,6 +103,9 @@ pub enum Case {
     Traits(MShape),
     /// geo-traits views of a multipoint / polyline: every point reached through them
     TraitsMulti(MShape),
+    /// a shape READ from a record encoded by the reference encoder exactly as given (no constructor has closed or
+    /// oriented anything): parts of one vertex, rings whose last vertex differs from the first in Z / M only
+    Read(MShape),
 }
 
 impl Case {
@@ -111,6 +114,7 @@ impl Case {
             Case::Shape(s) => json!({"kind": "shape", "shape": s.to_json()}),
             Case::Traits(s) => json!({"kind": "traits", "shape": s.to_json()}),
             Case::TraitsMulti(s) => json!({"kind": "traits-multi", "shape": s.to_json()}),
+            Case::Read(s) => json!({"kind": "read", "shape": s.to_json()}),
             Case::Geo { kind, groups } => json!({"kind": "geo", "geometry": kind,
                 "groups": groups.iter().map(|g| g.iter().map(|r| r.iter().map(|(x, y)| json!([fjson(*x), fjson(*y)])).collect::<Vec<_>>()).collect::<Vec<_>>()).collect::<Vec<_>>()}),
         }
@@ -120,6 +124,7 @@ impl Case {
             "shape" => Some(Case::Shape(MShape::from_json(v.get("shape")?)?)),
             "traits" => Some(Case::Traits(MShape::from_json(v.get("shape")?)?)),
             "traits-multi" => Some(Case::TraitsMulti(MShape::from_json(v.get("shape")?)?)),
+            "read" => Some(Case::Read(MShape::from_json(v.get("shape")?)?)),
             "geo" => {
                 let mut groups = vec![];
                 for g in v.get("groups")?.as_array()? {
@@ -169,9 +174,44 @@ pub fn make_geometry(kind: &str, groups: &[Vec<Vec<(f64, f64)>>]) -> gt::Geometr
     }
 }
 
+/// the shape as the library's reader returns it from a one-record file holding `stored` as given
+fn read_back(stored: &MShape) -> Result<Shape, String> {
+    use crate::refmodel::codec::{self, MBody, MFile, MRecord};
+    let bbox = codec::true_bbox(stored);
+    let f = MFile { ty: stored.ty, header_box: [0.0; 8], records: vec![MRecord { number: 1, body: MBody::Shape { shape: stored.clone(), bbox, with_m: true } }], trailing: vec![] };
+    let bytes = codec::encode(&f).bytes;
+    let mut r = shapefile::ShapeReader::new(std::io::Cursor::new(bytes)).map_err(|e| e.to_string())?;
+    let x = r.iter_shapes().next().ok_or_else(|| "no record".to_string())?;
+    x.map_err(|e| e.to_string())
+}
+
 pub fn run(case: &Case) -> Vec<(String, String)> {
     let mut out = vec![];
     match case {
+        Case::Read(stored) => {
+            let tn = stored.ty.name();
+            let lib = match read_back(stored) {
+                Ok(l) => l,
+                Err(e) => return vec![(format!("read:{}:reader-refused", tn), e)],
+            };
+            let as_read = from_lib(&lib).shape;
+            let want = expect_image(&as_read);
+            let outer_first = match &want {
+                GeoImg::Polygons(p) => p.iter().all(|(ext, _)| !ext.is_empty()) || p.is_empty(),
+                _ => true,
+            };
+            match (gt::Geometry::<f64>::try_from(clone_shape(&lib)), &want) {
+                (Err(_), GeoImg::Refused) => {}
+                (Ok(g), GeoImg::Refused) => out.push((format!("read:{}:not-refused", tn), format!("converted to {:?}", image_of_geometry(&g)))),
+                (Err(e), _) => out.push((format!("read:{}:refused", tn), format!("conversion refused: {}", e))),
+                (Ok(g), w) => {
+                    let got = image_of_geometry(&g);
+                    if outer_first && got != *w {
+                        out.push((format!("read:{}:shape-to-geo", tn), format!("image {:?}, the shape as read has {:?}", got, w)));
+                    }
+                }
+            }
+        }
         Case::Shape(m) => {
             let lib = to_lib(m);
             let built = from_lib(&lib);
@@ -676,6 +716,56 @@ fn traits_multi_cases() -> Vec<Case> {
     v
 }
 
+/// shapes that only a reader can produce
+fn read_cases() -> Vec<Case> {
+    let mut v = vec![];
+    // polylines with parts of 1, 2 and 3 vertices in every arrangement of up to 3 parts
+    for ty in [Ty::Polyline, Ty::PolylineM, Ty::PolylineZ] {
+        for np in 1..=3usize {
+            let mut idx = vec![0usize; np];
+            loop {
+                let lens: Vec<usize> = idx.iter().map(|i| i + 1).collect();
+                let mut k = 0;
+                let parts: Vec<MPart> = lens.iter().map(|l| { let p = MPart { kind: 0, pts: (0..*l).map(|i| dflt(k + i)).collect() }; k += l; p }).collect();
+                v.push(Case::Read(MShape { ty, parts }));
+                let mut c = 0;
+                while c < np {
+                    idx[c] += 1;
+                    if idx[c] < 3 {
+                        break;
+                    }
+                    idx[c] = 0;
+                    c += 1;
+                }
+                if c == np {
+                    break;
+                }
+            }
+        }
+    }
+    // polygons whose rings are closed in X / Y; the last vertex differs from the first in Z, in M, in both, or not at all
+    for ty in [Ty::Polygon, Ty::PolygonM, Ty::PolygonZ] {
+        for differs in 0..4u8 {
+            for with_hole in [false, true] {
+                let mk = |r: &[(f64, f64)], kind: u8, k: usize| -> MPart {
+                    let mut pts: Vec<P4> = r.iter().enumerate().map(|(i, (x, y))| [*x, *y, 10.0 + (k + i) as f64, 100.0 + (k + i) as f64]).collect();
+                    let first = pts[0];
+                    let last = pts.last_mut().unwrap();
+                    last[2] = if differs & 1 != 0 { first[2] + 50.0 } else { first[2] };
+                    last[3] = if differs & 2 != 0 { first[3] + 50.0 } else { first[3] };
+                    MPart { kind, pts }
+                };
+                let mut parts = vec![mk(&[(0.0, 0.0), (0.0, 8.0), (8.0, 8.0), (8.0, 0.0), (0.0, 0.0)], 0, 0)];
+                if with_hole {
+                    parts.push(mk(&[(2.0, 2.0), (4.0, 2.0), (4.0, 4.0), (2.0, 4.0), (2.0, 2.0)], 1, 5));
+                }
+                v.push(Case::Read(MShape { ty, parts }));
+            }
+        }
+    }
+    v
+}
+
 fn selftest() -> (u64, u64) {
     // RefGeo must distinguish a hole attached to the wrong outer, a reordered line, a dropped point
     let m = MShape { ty: Ty::Polygon, parts: vec![
@@ -716,6 +806,7 @@ pub fn check(tier: Tier) -> i32 {
     cases.extend(geo_cases());
     cases.extend(traits_cases());
     cases.extend(traits_multi_cases());
+    cases.extend(read_cases());
     let nb = (cases.len() + 255) / 256;
     let (agg, capped) = par_blocks(nb, None, |b, ctx, tick| {
         for c in &cases[b * 256..((b + 1) * 256).min(cases.len())] {
@@ -730,6 +821,7 @@ pub fn check(tier: Tier) -> i32 {
                 Case::Geo { kind, .. } => kind,
                 Case::Traits(m) => m.ty.name(),
                 Case::TraitsMulti(m) => m.ty.name(),
+                Case::Read(m) => m.ty.name(),
             });
             ctx.lib_calls += 3;
             ctx.case_done(c.hash(), !matches!(c, Case::Shape(m) if m.ty.family() == Family::Point && false), oh.finish());
@@ -749,7 +841,7 @@ pub fn check(tier: Tier) -> i32 {
             tier,
             level: "model_checking",
             engine: "E2 enumerator on the real From/TryFrom impls between shapefile and geo-types values and the geo-traits accessors (library built with features geo-types + geo-traits)",
-            rule: "shapes: Point/PointM/PointZ with <= 2 special values from the per-dimension alphabets; Multipoint* of 1-3 points and Polyline* structures with one X/Y slot replaced by every value of F_xy; Polygon*: every role word of the outer-first language O I{0..2} (O I{0..2}){0..2} x ring templates {triangle cw/ccw, square cw/ccw, zero-area, open triangle} (all combinations up to 3 rings, a rotating choice above), and k outer rings with 0-2 holes each for every k up to 48; multipatches: every kind vector of length 1-3 over the 6 kinds (ring-only ones convert, any strip / fan is refused); NullShape; geo-types: Point, Line, LineString, MultiLineString (1-3), MultiPoint (1-3), Polygon with 0-2 holes x templates, MultiPolygon of 1-3 polygons, Rect, Triangle, GeometryCollection; geo-traits: every Point/PointM/PointZ with <= 2 special values from the full alphabet (no-data, below-threshold, NaN measures included), and every point of Multipoint*/Polyline* structures reached through the MultiPointTrait / MultiLineStringTrait views with one slot replaced by every value of its alphabet; every case is non-trivial",
+            rule: "shapes: Point/PointM/PointZ with <= 2 special values from the per-dimension alphabets; Multipoint* of 1-3 points and Polyline* structures with one X/Y slot replaced by every value of F_xy; Polygon*: every role word of the outer-first language O I{0..2} (O I{0..2}){0..2} x ring templates {triangle cw/ccw, square cw/ccw, zero-area, open triangle} (all combinations up to 3 rings, a rotating choice above), and k outer rings with 0-2 holes each for every k up to 48; multipatches: every kind vector of length 1-3 over the 6 kinds (ring-only ones convert, any strip / fan is refused); NullShape; geo-types: Point, Line, LineString, MultiLineString (1-3), MultiPoint (1-3), Polygon with 0-2 holes x templates, MultiPolygon of 1-3 polygons, Rect, Triangle, GeometryCollection; geo-traits: every Point/PointM/PointZ with <= 2 special values from the full alphabet (no-data, below-threshold, NaN measures included), and every point of Multipoint*/Polyline* structures reached through the MultiPointTrait / MultiLineStringTrait views with one slot replaced by every value of its alphabet; plus shapes READ from records encoded as given: polylines with parts of 1-3 vertices in every arrangement of up to 3 parts, polygons (with and without a hole) whose rings are closed in X / Y while the last vertex differs from the first in Z, M, both or neither; every case is non-trivial",
             bounds: json!({"cases": cases.len(), "max_rings": 9, "max_patches": 3}),
             exhaustive: true,
             assumptions: vec![
